@@ -386,7 +386,7 @@ def gen_fixshape_history(rng, prog, nops):
     return hist
 
 
-def gen_nested_fix_program(rng, ncons=0):
+def gen_nested_fix_program(rng, ncons=0, nleaf=0):
     """Nested fixpoint cycles for C20 / C21: an outer head that keeps requesting functions after an inner head
     (which depends on itself and on the outer head) has completed with a provisional memo; optionally below
     plain consumers that request further tracked functions after the cycle has completed."""
@@ -415,7 +415,17 @@ def gen_nested_fix_program(rng, ncons=0):
             steps.append(("orcall", o + rng.randrange(1, j), full))                      # and an outer head
             if rng.random() < 0.5:
                 steps.append(("orcall", o + rng.randrange(1, n + 1), rng.choice([full, 3, 6])))
+        if nleaf:
+            # plain leaves executed inside the fixpoint queries (C19: claims released while cancellation is deferred)
+            steps.insert(rng.randrange(1, len(steps) + 1), ("orcall", o + n + rng.randrange(1, nleaf + 1), full))
         fns.append({"kind": rng.choice(["fix", "fix", "fixjoin"]), "init": 0, "fwd": 0, "nodes": chain_body(rng, steps)})
+    for _ in range(nleaf):
+        steps = [("orc", rng.randrange(full + 1)), ("condelse", 1, rng.randrange(2) + 1, len(fns) + 1, 0, rng.randrange(full + 1))]
+        # (the conditional call is a masked-out self reference that is never taken: mask 0 and input-dependent constant)
+        i, f = 1, rng.randrange(2) + 1
+        c0, c1 = rng.randrange(full + 1), rng.randrange(full + 1)
+        nodes = [node("in", i, f, 0, [2, 3]), node("orc", c0, 0, 0, [4]), node("orc", c1, 0, 0, [4]), node("retr")]
+        fns.append({"kind": "plain", "init": 0, "fwd": 0, "nodes": nodes})
     return {"nv": full + 1, "inputs": inputs, "cells": [], "fns": fns, "sfns": [], "ifns": [], "lru_cap": 2}
 
 
@@ -858,7 +868,7 @@ def gen_par_jobs(seed, njobs, family, nrounds=3):
     rng = random.Random(seed)
     jobs = []
     base = {"pardag": "dur", "parfix": "fix", "parfb": "fb", "parpcycle": "pcycle", "parintern": "churn",
-            "parstruct": "struct", "parcancel": "dur", "parwrite": "dur", "parwritefix": "fix", "parwritenest": "fix", "parcancelfix": "fix", "parcancelnest": "fix", "parnest3": "fix", "parpanic": "dur", "parmemo": "struct", "paralloc": "struct"}[family]
+            "parstruct": "struct", "parcancel": "dur", "parwrite": "dur", "parwritefix": "fix", "parwritenest": "fix", "parcancelfix": "fix", "parcancelnest": "fix", "parnest3": "fix", "parpaniccancel": "fix", "parpanic": "dur", "parmemo": "struct", "paralloc": "struct"}[family]
     for n in range(njobs):
         if family == "paralloc":
             # C24: concurrent creation of inputs, interned values and tracked structs across page boundaries (128 slots)
@@ -924,6 +934,8 @@ def gen_par_jobs(seed, njobs, family, nrounds=3):
             prog = gen_nested_fix_program(rng, ncons=rng.choice([1, 2]))
         elif family == "parnest3":
             prog = gen_xthread_program(rng)
+        elif family == "parpaniccancel":
+            prog = gen_nested_fix_program(rng, ncons=rng.choice([0, 1]), nleaf=rng.choice([1, 2]))
         elif base in CYCLE_FAMILIES:
             prog = gen_cycle_program(rng, base)
         else:
@@ -971,8 +983,8 @@ def gen_par_jobs(seed, njobs, family, nrounds=3):
                     writer_after = rng.choice([4, 8, 12, 16, 20, 25, 30, 40, 50])
                 for th in threads:
                     th += [{"op": "get", "f": rng.randrange(nfn) + 1} for _ in range(rng.choice([2, 4, 6]))]
-            if family in ("parcancel", "parcancelfix", "parcancelnest"):
-                for _ in range(rng.choice([1, 1, 2]) if family != "parcancelnest" else rng.choice([2, 3])):
+            if family in ("parcancel", "parcancelfix", "parcancelnest", "parpaniccancel"):
+                for _ in range(rng.choice([1, 1, 2]) if family not in ("parcancelnest", "parpaniccancel") else rng.choice([2, 3])):
                     cancels.append([rng.randrange(nthreads) + 1, rng.choice([1, 4, 8, 15, 25, 40])])
                 for th in threads:
                     th += [{"op": "get", "f": rng.randrange(nfn) + 1} for _ in range(rng.choice([1, 2, 3]))]
@@ -982,6 +994,8 @@ def gen_par_jobs(seed, njobs, family, nrounds=3):
                      "rounds": rounds, "jitter": rng.choice([0, 50, 200, 500]) if family != "parnest3" else rng.choice([20, 100, 300, 600])})
         if family == "parpanic":
             jobs[-1]["inject"] = rng.choice([3, 5, 8, 12, 17, 23, 30, 40])
+        if family == "parpaniccancel":
+            jobs[-1]["inject"] = rng.choice([4, 6, 8, 10, 12, 15, 18, 22, 26, 30, 36, 44])
     return jobs
 
 
